@@ -128,7 +128,7 @@ def _encode_value(fmt, _type, value):
 
 def _max_length(fmt, _type):
     """Determine the maximum length based on the format ad type."""
-    length = sum(int(re.match(r'^[NXY][0-9]*?[.]*([0-9]+)[\[\]]?$', x).group(1)) for x in fmt.split('+'))
+    length = sum(int(re.match(r'^[NXYZ][0-9]*?[.]*([0-9]+)[\[\]]?$', x).group(1)) for x in fmt.split('+'))
     if _type == 'decimal':
         length += 1
     return length
